@@ -83,6 +83,7 @@ func (p *Packet) Decode(data []byte) (remainData []byte, err error) {
 }
 
 func (p *Packet) decodeHead(data []byte) error {
+	*p = Packet{} // 复用同一个Packet解析时 不保留上一个包的内容(如videoFrame)
 	if len(data) < 16 {
 		return ErrHeaderLength2Short
 	}
